@@ -202,6 +202,7 @@ let main () =
         | ["D"; id] -> frems := n_of_dec id :: !frems
         | ["F"; kind; value] -> finals := (kind, value) :: !finals
         | "X" :: rest -> Printf.printf "ANOMALY %s %s\n" !cur_round (String.concat " " rest)
+        | "N" :: rest -> Printf.printf "NOTE %s\n" (String.concat " " rest)
         | ["E"] ->
             if !face_mode = "rec" then check_face_recorded !cur_round !n0 (List.rev !frecs) (List.rev !finals)
             else if !face_mode = "heavy" then check_face_heavy !cur_round !n0 (List.rev !fadds) (List.rev !frems) (List.rev !finals)
